@@ -528,7 +528,24 @@ def tmpl_exec(ex, st, a, ins):
     return fork_results(ex, st, ins, [(None, lambda s: mk_error(s, fresh_str(s, 'tmplerr'), 'template')), (None, nilerr())])
 
 
+def values_get(ex, st, a, ins):
+    """(url.Values).Get(key) on an untouched symbolic input map: one term  ite(present, first value, "")  instead of a fork per lookup
+    (names coincide with the lazily materialised map entries, so direct r.Form[key] lookups stay consistent)"""
+    m, key = a[0], a[1]
+    cell = st.heap.get(m.obj) if isinstance(m, MapV) else None
+    if isinstance(cell, dict) and cell.get('base') is not None and not cell['writes']:
+        ks = z3.simplify(key).sexpr() if z3.is_expr(key) else repr(key)
+        nm = f"{cell['base']}[{ks}]"
+        if ks not in cell['lazy']:
+            return z3.If(z3.Bool(nm + '.present'), z3.String(nm + '[0]'), z3.StringVal(''))
+    if isinstance(m, Nil): return z3.StringVal('')
+    f2 = Frame(ex.ir.funcs['(net/url.Values).Get'], a); f2.ret = ins.get('reg')
+    st.frames.append(f2)
+    return None
+
+
 HTTP = {
+    '(net/url.Values).Get': values_get,
     'net/http.Error': http_error,
     'net/http.Redirect': http_redirect,
     'net/http.SetCookie': http_setcookie,
